@@ -14,7 +14,7 @@ REF_ASSUME = [
 def check_C01(tier):
     t0 = time.time()
     b = compile_bin('refdiff', ['checks/refdiff.cc'], 'fast', ref=True)
-    cases = {'quick': 100000, 'thorough': 3000000}[tier]
+    cases = {'quick': 250000, 'thorough': 3000000}[tier]
     cases = int(os.environ.get('VERIF_C01_CASES', cases))
     reps = run_native(b, ['--prop', 'C01', '--seed', str(seed()), '--cases', str(cases), '--known', known_tsv('C01')], NCPU, 'C01')
     agg = Agg('C01')
@@ -33,14 +33,16 @@ def check_C02(tier):
     t0 = time.time()
     b = compile_bin('refdiff', ['checks/refdiff.cc'], 'fast', ref=True)
     if tier == 'quick':
-        args = ['--grid', 'strat', '--evts', '800']
+        args = ['--grid', 'strat', '--evts', '800', '--lowevts', '30000']
     else:
-        args = ['--grid', 'full', '--evts', os.environ.get('VERIF_C02_EVTS', '3000')]
+        args = ['--grid', 'full', '--evts', os.environ.get('VERIF_C02_EVTS', '3000'), '--lowevts', os.environ.get('VERIF_C02_LOWEVTS', '2000000')]
     reps = run_native(b, ['--prop', 'C02', '--seed', str(seed()), '--known', known_tsv('C02')] + args, NCPU, 'C02')
     agg = Agg('C02')
     agg.add(reps)
     rule = ('case = (isotope, daughter level, mode 1..20, window class none/interior/low-sliver/high-sliver/beyond-e0, NMEs for mode 18) '
-            'initialised on both sides (ier, toallevents, levelE, spin, deviates consumed by init compared) then N event tapes each; '
+            'initialised on both sides (ier, toallevents, levelE, spin, deviates consumed by init compared) then N event tapes each (quick: stratified grid = every mode of every isotope at level 0, '
+            'a third of the highest level, 1/11 of the rest, plus for EVERY (isotope, excited level) the first mode the reference accepts in a hashed order with 3N tapes); '
+            'plus the cascade-level pass: every de-excitation routine <Nuclide>low called directly on both sides for every entry level the reference tabulates (185 (routine, level) pairs x 30000 / 2000000 steered tapes); '
             'non-trivial & distinct = distinct (configuration, window class, cascade-path signature) on which both sides agreed')
     return verdict(agg, tier, t0, rule, REF_ASSUME, min_eval=1000)
 
@@ -102,7 +104,7 @@ def check_C04(tier):
 def check_C05(tier):
     t0 = time.time()
     agg = Agg('C05')
-    agg.add(_gencheck('C05', tier))
+    agg.add(_gencheck('C05', tier, extra=['--evts', '2000000' if tier == 'thorough' else '200000']))
     rule = ('(1) every published background name x N tapes: event from genbbsub(name) must be bit-identical to the composition of the nuclide\'s own public scheme '
             'function(s) (hand-written oracle table) on the same deviates; (2) every ordered pair of names where one is a prefix of the other: the event must not equal '
             'the concatenation of the two schemes; (3) README lists == .lis files == API sets, every published name initialises and shoots, every accepted candidate '
@@ -296,7 +298,7 @@ def check_C07(tier):
 def check_C10(tier):
     t0 = time.time()
     b = compile_bin('mdlcheck', ['checks/mdlcheck.cc'], 'fast')
-    cases = '20000000' if tier == 'thorough' else '1500000'
+    cases = '40000000' if tier == 'thorough' else '4000000'
     agg = Agg('C10')
     agg.add(run_native(b, ['--seed', str(seed()), '--cases', cases, '--known', known_tsv('C10')], NCPU, 'C10'))
     rule = ('case = (event: synthetic 1-12 particles incl. collinear / axis-aligned / back-to-back, or a real decay of a random published nuclide / DBD configuration on a generated tape) x '
@@ -313,7 +315,7 @@ def check_C10(tier):
 def check_C11(tier):
     t0 = time.time()
     b = compile_bin('readercheck', ['checks/readercheck.cc'], 'fast', libs=['-lrapidcheck'])
-    cases = '6000' if tier == 'thorough' else '500'
+    cases = '40000' if tier == 'thorough' else '4000'
     wd = os.path.join(BUILD, 'run', 'c11tmp')
     os.makedirs(wd, exist_ok=True)
     agg = Agg('C11')
@@ -329,7 +331,7 @@ def check_C11(tier):
 def check_C16(tier):
     t0 = time.time()
     b = compile_bin('kernels', ['checks/kernels.cc'], 'fast')
-    cases = '60000000' if tier == 'thorough' else '8000000'
+    cases = '200000000' if tier == 'thorough' else '30000000'
     agg = Agg('C16')
     agg.add(run_native(b, ['--seed', str(seed()), '--cases', cases, '--known', known_tsv('C16')], NCPU, 'C16'))
     rule = ('cases cycle over 7 kernels: dgmlt1/dgmlt2 on monomials x^k (k<=2NG-1, NG in {6,8}, NI 1..20, random intervals incl. reversed) and nested dgmlt1(dgmlt2) as in dshelp1/2 (1e-13 rel.); '
